@@ -56,6 +56,7 @@ THEORY = ['FieldSec', 'PolyQ', 'QcI', 'ExpPoly', 'ILT', 'ILTResidue', 'ILTCorr',
 
 KEY_KIC = 'K:coupled-inductors-with-initial-current:mutual-ic-term-missing'
 KEY_F10 = 'ilt:repeated-complex-natural-frequency'
+KEY_DELAY_IVP = 'ilt:unexpanded-delayed-terms:initial-value-problem-with-delayed-source'
 
 
 # ------------------------------------------------------------------ exact helpers
@@ -713,3 +714,558 @@ def parse_fail_cases(out):
     for mm in re.finditer(r'\((\d+),\s*\[([^\]]*)\]\)', body.replace('%nat', '')):
         res[int(mm.group(1))] = [int(x) for x in mm.group(2).replace('\n', ' ').split(';') if x.strip()]
     return res
+
+
+# ------------------------------------------------------------------ switched circuits
+KEY_BEFORE = 'SW._replace_switch:before:comparison-inverted'
+KEY_IVP_CFG = 'convert_IVP:two-or-more-instants-passed:switch-configuration'
+KEY_IVP_TRACE = 'convert_IVP:two-or-more-instants-passed:handover'
+KEY_IVP_IC = 'convert_IVP:two-or-more-instants-passed:initial-condition'
+
+
+def tstr(x):
+    """decimal spelling of a dyadic rational (switching_times() goes through float())"""
+    x = Fraction(x)
+    if x.denominator == 1:
+        return str(x.numerator)
+    return repr(float(x))
+
+
+def sw_spec_closed(kind, active):
+    return active if kind == 'no' else (not active)
+
+
+def sw_cfg(sws, t, before):
+    return [sw_spec_closed(k, (a < t) if before else (a <= t)) for k, a in sws]
+
+
+def sw_lines(template, sws, cfg):
+    """netlist with every switch replaced by a wire / open circuit; reactive elements without IC"""
+    out = []
+    si = 0
+    for ln in template:
+        if ln[0] == 'SW':
+            out.append('%s %s %s' % ('W' if cfg[si] else 'O', ln[1], ln[2]))
+            si += 1
+        else:
+            out.append(' '.join(ln))
+    return out
+
+
+SW_TIMES = [Fraction(0), Fraction(1, 2), Fraction(1), Fraction(3, 2), Fraction(2), Fraction(1, 4), Fraction(3)]
+
+
+def gen_switch_case(rng, nsw, shape, tq=None):
+    A, R1, R2, R3 = rnd(rng, (6, 10, 4, 12)), rnd(rng, (1, 2, 4)), rnd(rng, (1, 2, 4)), rnd(rng, (1, 2))
+    kinds = [rng.choice(['no', 'no', 'nc']) for _ in range(nsw)]
+    times = [rng.choice(SW_TIMES) for _ in range(nsw)]
+    if nsw >= 2 and rng.random() < 0.8:
+        while len(set(times)) < 2:
+            times[-1] = rng.choice(SW_TIMES)
+    if shape == 'rc':
+        Cv = rnd(rng, (1, 2, F(1, 2)))
+        tpl = [['V1', '1', '0', 'dc', val(A)], ['SW', '1', '2'], ['R1', '2', '3', val(R1)], ['C1', '3', '0', val(Cv)]]
+        if nsw >= 2:
+            tpl += [['SW', '3', '4'], ['R2', '4', '0', val(R2)]]
+        else:
+            tpl += [['R2', '3', '0', val(R2)]]
+        if nsw >= 3:
+            tpl += [['SW', '3', '5'], ['R3', '5', '0', val(R3)]]
+        reactive = ['C1']
+    else:
+        Lv = rnd(rng, (1, 2, F(1, 2)))
+        tpl = [['V1', '1', '0', 'dc', val(A)], ['R3', '1', '5', val(R3)], ['R1', '5', '2', val(R1)], ['L1', '2', '3', val(Lv)], ['R2', '3', '0', val(R2)], ['SW', '3', '0']]
+        if nsw >= 2:
+            tpl += [['SW', '5', '2']]
+        if nsw >= 3:
+            tpl += [['R4', '2', '6', val(R3)], ['SW', '6', '0']]
+        reactive = ['L1']
+    sws = list(zip(kinds, times))[:sum(1 for l in tpl if l[0] == 'SW')]
+    lines = []
+    si = 0
+    for ln in tpl:
+        if ln[0] == 'SW':
+            k, a = sws[si]
+            lines.append('SW%d %s %s %s %s' % (si + 1, ln[1], ln[2], k, tstr(a)))
+            si += 1
+        else:
+            lines.append(' '.join(ln))
+    inst = sorted(set(a for _, a in sws))
+    if tq is None:
+        cands = list(inst) + [inst[0] - Fraction(1, 2), inst[-1] + Fraction(1, 2)] + [(x + y) / 2 for x, y in zip(inst, inst[1:])]
+        tq = rng.choice(cands)
+    passed = [a for a in inst if a <= tq]
+    intervals = []
+    if passed:
+        intervals.append({'netlist': sw_lines(tpl, sws, sw_cfg(sws, passed[0], True)), 'T': fs(passed[0])})
+        for a, b in zip(passed, passed[1:]):
+            intervals.append({'netlist': sw_lines(tpl, sws, sw_cfg(sws, a, False)), 'T': fs(b - a)})
+    return {'netlist': lines, 'tags': ['switch', shape, 'sw%d' % len(sws), 'passed%d' % len(passed)],
+            'switch': {'t': fs(tq), 'reactive': reactive, 'intervals': intervals,
+                       'sws': [[k, fs(a)] for k, a in sws], 'sw_lines': [i for i, l in enumerate(tpl) if l[0] == 'SW']},
+            'timeout': 150}
+
+
+def gen_switch_cases(rng, tier):
+    n = int(os.environ.get('VERIF_NSWITCH', 14 if tier == 'quick' else 120))
+    out = []
+    # corpus: the two-switch circuit of the documentation style, after both instants
+    for i in range(n):
+        out.append(gen_switch_case(rng, [1, 2, 2, 3][i % 4], ['rc', 'rl'][(i // 4) % 2]))
+    return out
+
+
+def cfg_of(lines, idxs):
+    cfg = []
+    for i in idxs:
+        if i >= len(lines):
+            return None
+        w = lines[i].split()[0]
+        if w == 'W':
+            cfg.append(True)
+        elif w == 'O':
+            cfg.append(False)
+        else:
+            return None
+    return cfg
+
+
+def cmp_py(c, t, a):
+    op, x, y = c
+    l, r = (t, a) if x == 't' else (a, t)
+    return {'lt': l < r, 'le': l <= r, 'gt': l > r, 'ge': l >= r}[op]
+
+
+def switch_obs(case, wr):
+    """observations of one convert_IVP experiment, or None"""
+    sw = case['switch']
+    idxs = sw['sw_lines']
+    if 'netlist' not in wr:
+        return None
+    o = {'final': cfg_of(wr['netlist'], idxs), 'after': cfg_of(wr.get('after', []), idxs), 'before': cfg_of(wr.get('before', []), idxs),
+         'times': [Fraction(x).limit_denominator(1 << 20) if '.' not in x else Fraction(x) for x in wr.get('times', [])], 'trace': []}
+    for call in wr.get('calls', []):
+        if call['call'] == 'initialize' and len(call['args']) >= 2 and isinstance(call['args'][0], list):
+            cfg = cfg_of(call['args'][0], idxs)
+            try:
+                T = Fraction(call['args'][1])
+            except (ValueError, ZeroDivisionError):
+                T = None
+            o['trace'].append((cfg, T))
+    return o
+
+
+def switch_coq(i, case, o, have_gen):
+    sw = case['switch']
+    sws = '[' + '; '.join('Sw %s %s' % ('SWno' if k == 'no' else 'SWnc', qc(a)) for k, a in sw['sws']) + ']'
+
+    def bools(c):
+        return '[' + '; '.join(bl(x) for x in c) + ']'
+    if o is None or o['final'] is None or o['after'] is None or o['before'] is None or any(c is None or T is None for c, T in o['trace']):
+        return None
+    tr = '[' + '; '.join('(%s, %s)' % (bools(c), qc(T)) for c, T in o['trace']) + ']'
+    gens = 'before_cmp_gen after_cmp_gen closed_gen' if have_gen else 'before_spec after_spec closed'
+    return '(%d%%nat, sw_items %s %s %s [%s] %s %s %s %s)' % (
+        i, gens, sws, qc(sw['t']), '; '.join(qc(x) for x in o['times']), bools(o['final']), tr, bools(o['after']), bools(o['before']))
+
+
+def switch_oracle(case, wr, o, tr_sw):
+    """independent verdicts on one convert_IVP experiment: list of (key, what)"""
+    bad = []
+    sw = case['switch']
+    sws = [(k, Fraction(a)) for k, a in sw['sws']]
+    t = Fraction(sw['t'])
+    inst = sorted(set(a for _, a in sws))
+    passed = [a for a in inst if a <= t]
+    if o is None:
+        return bad
+    exp_after = sw_cfg(sws, t, False)
+    exp_before = sw_cfg(sws, t, True)
+    if o['after'] is not None and o['after'] != exp_after:
+        bad.append(('SW._replace_switch:after', 'replace_switches(%s) gives %s, expected %s' % (t, o['after'], exp_after)))
+    if o['before'] is not None and o['before'] != exp_before:
+        bad.append((KEY_BEFORE, 'replace_switches_before(%s) gives %s (True = wire), expected %s: a switch activated before t must already be active, one activated later not yet' % (t, o['before'], exp_before)))
+    exp_final = sw_cfg(sws, passed[-1], False) if passed else exp_after
+    if o['final'] is not None and o['final'] != exp_final:
+        key = KEY_IVP_CFG if len(passed) >= 2 else 'convert_IVP:switch-configuration:passed%d' % len(passed)
+        bad.append((key, 'convert_IVP(%s): switches end up as %s, expected %s (the switches activated at later instants never toggle)' % (t, o['final'], exp_final)))
+    # hand-over trace
+    exp_trace = []
+    if passed:
+        exp_trace.append((sw_cfg(sws, passed[0], True), passed[0]))
+        for a, b in zip(passed, passed[1:]):
+            exp_trace.append((sw_cfg(sws, a, False), b - a))
+    if o['trace'] != exp_trace and all(c is not None for c, _ in o['trace']):
+        if len(passed) >= 2:
+            key = KEY_IVP_TRACE
+        else:
+            # one instant: explained by the source-extracted comparison of the `before` branch?
+            key = 'convert_IVP:handover:passed%d' % len(passed)
+            if tr_sw is not None and len(o['trace']) == 1 and passed:
+                model = [sw_spec_closed(k, cmp_py(tr_sw.before, passed[0], a)) for k, a in sws]
+                if o['trace'][0] == (model, passed[0]) and model != exp_trace[0][0]:
+                    key = KEY_BEFORE
+        bad.append((key, 'convert_IVP(%s): initialize() was called with (configuration of `before`, T) = %s, expected %s' % (t, o['trace'], exp_trace)))
+    # initial conditions against the interval-by-interval reference
+    if 'ref_ics' in wr and passed:
+        for name in sw['reactive']:
+            got, want = wr.get('ics', {}).get(name), wr['ref_ics'].get(name)
+            if isinstance(got, dict) or got is None or want is None:
+                continue
+            if sorted(map(json.dumps, got)) != sorted(map(json.dumps, want)):
+                if len(passed) >= 2:
+                    key = KEY_IVP_IC
+                elif o['trace'] and tr_sw is not None and o['trace'][0][0] != exp_trace[0][0]:
+                    key = KEY_BEFORE
+                else:
+                    key = 'convert_IVP:initial-condition:passed%d' % len(passed)
+                bad.append((key, 'convert_IVP(%s): initial condition of %s is %s, the previous interval\'s waveform at the switching instant is %s (exponent/coefficient pairs)' % (t, name, got, want)))
+    return bad
+
+
+def switch_v(tr_sw):
+    return ('(* GENERATED by checks/c02.py from the translation of SW._replace_switch (lcapy/mnacpts.py). Do not edit. *)\n'
+            'Require Import LT.FieldSec LT.TimeDomSwitch Gen.SwitchGen.\n'
+            '(* the comparisons and the wire/open choice of the CURRENT source are the specification\'s *)\n'
+            'Theorem closed_ok : forall k b, closed_gen k b = closed k b.\n'
+            'Proof. intros [] []; reflexivity. Qed.\n'
+            'Theorem after_cmp_ok : forall t a, after_cmp_gen t a = after_spec t a.\n'
+            'Proof. intros t a. unfold after_cmp_gen. cmp_cases t a. Qed.\n'
+            'Theorem replace_after_ok : forall t sws, map (fun s => closed_gen (sw_kind s) (after_cmp_gen t (sw_time s))) sws = cfg_after sws t.\n'
+            'Proof. intros t sws. unfold cfg_after, repl. apply map_ext. intros s. rewrite closed_ok, after_cmp_ok. reflexivity. Qed.\n'
+            'Theorem before_own_instant : forall t, before_cmp_gen t t = false.\n'
+            'Proof. intros t. unfold before_cmp_gen, qle, qlt. rewrite (proj1 (Qceq_alt t t) eq_refl). reflexivity. Qed.\n'
+            '(* source: before: active = %s *)\n'
+            'Theorem before_cmp_ok : forall t a, before_cmp_gen t a = before_spec t a.\n'
+            'Proof. intros t a. unfold before_cmp_gen. cmp_cases t a. Qed.\n'
+            'Theorem replace_before_ok : forall t sws, map (fun s => closed_gen (sw_kind s) (before_cmp_gen t (sw_time s))) sws = cfg_before sws t.\n'
+            'Proof. intros t sws. unfold cfg_before, repl. apply map_ext. intros s. rewrite closed_ok, before_cmp_ok. reflexivity. Qed.\n'
+            'Print Assumptions closed_ok. Print Assumptions after_cmp_ok. Print Assumptions replace_after_ok. Print Assumptions before_cmp_ok. Print Assumptions replace_before_ok.\n'
+            % tr_sw.src_before.replace('*)', '* )'))
+
+
+# ------------------------------------------------------------------ classification of circuit failures
+def classify_circuit(case, wr, codes, oracle_bad, meta):
+    """structural fingerprint(s) of one failing circuit: list of (key, what, found_input)"""
+    out = []
+    gen = case['gen']
+    tags = case.get('tags', [])
+    laws = case['laws']
+    # the time functions that differ from the inverse of Lcapy's own s-domain value: are they all explained by
+    # "the inverse transform of the expanded expression is right" in an initial value problem with a delayed source?
+    mism = [q_ for q_ in wr.get('q', []) if 'alt_equal' in q_]
+    delayed_ivp = bool(mism) and all(q_['alt_equal'] for q_ in mism) and gen['has_ic'] and not case['causal_expected'] \
+        and any(t_ in ('dstep', 'dexp', 'pulse') for t_ in gen['src_tags'])
+
+    def law_name(li):
+        l = laws[li]
+        return ('%s law of %s' % ({'C': 'capacitor', 'L': 'inductor'}[l['k']], l['name'])) if l['k'] in ('C', 'L') else l['name']
+    # oracle findings (concrete, on Lcapy's own expressions)
+    for b in oracle_bad:
+        if b.get('undecided'):
+            out.append(('oracle-undecided:' + '+'.join(t for t in tags if t != 'corpus'), 'oracle could not decide a constant exactly: %s' % b['what'], False))
+            continue
+        li = b.get('law', -1)
+        if li >= 0 and laws[li]['k'] == 'L' and laws[li]['ms'] and gen['k_ic'] and 'i(0+)' in b['what']:
+            out.append((KEY_KIC, b['what'], True))
+        elif delayed_ivp:
+            out.append((KEY_DELAY_IVP, b['what'], True))
+        elif 'repeated_complex' in tags:
+            out.append((KEY_F10, b['what'], True))
+        elif li >= 0:
+            out.append(('law:%s:%s:%s' % (laws[li]['k'], re.sub(r'[^A-Za-z]+', '_', re.sub(r'\d+', '', law_name(li)))[:30], '+'.join(t for t in tags if t != 'corpus')), b['what'], True))
+        else:
+            out.append(('causality:' + '+'.join(t for t in tags if t != 'corpus'), b['what'], True))
+    have_real = any(f for _, _, f in out)
+    for cd in codes:
+        k, j = cd // 1000, cd % 1000
+        if k == 4:
+            li = meta['laws_used'][j]
+            l = laws[li]
+            if l['k'] == 'L' and l['ms'] and gen['k_ic']:
+                out.append((KEY_KIC, 'the s-domain solution violates V = L(sI - i0) + M(sI_k - i0k) for %s (mutual initial-current term missing)' % l['name'], True))
+            elif delayed_ivp:
+                out.append((KEY_DELAY_IVP, 'law %s fails on the model inverse' % law_name(li), have_real))
+            elif 'repeated_complex' in tags:
+                out.append((KEY_F10, 'law %s fails on the model inverse' % law_name(li), have_real))
+            else:
+                out.append(('model-law:%s:%s' % (l['k'], '+'.join(t for t in tags if t != 'corpus')), 'law %s does not hold for the inverse transform of Lcapy\'s s-domain solution' % law_name(li), have_real))
+        elif k in (1, 2, 3):
+            qn = case['quants'][meta['q_used'][j]]
+            what = {1: 'partial-fraction certificate of %s rejected by the verified checker',
+                    2: 'time-domain %s differs from the inverse transform of Lcapy\'s own s-domain solution',
+                    3: 'step / t >= 0 bookkeeping of %s differs from the flag model'}[k] % ('%s(%s)' % (qn['kind'], qn['name']))
+            if 'repeated_complex' in tags and k == 2:
+                out.append((KEY_F10, what, have_real))
+            elif delayed_ivp and k in (2, 3):
+                out.append((KEY_DELAY_IVP, what, have_real))
+            else:
+                out.append(('correspondence:%d:%s' % (k * 1000, '+'.join(t for t in tags if t != 'corpus')), what, False))
+        elif k == 5:
+            out.append(('correspondence:5000:analysis_causal', 'Analysis.causal differs from the model (all sources causal and zero initial conditions)', False))
+    return out
+
+
+# ------------------------------------------------------------------ main
+def log(msg):
+    if os.environ.get('VERIF_VERBOSE'):
+        import time as _t
+        sys.stderr.write('[%s] %s\n' % (_t.strftime('%H:%M:%S'), msg))
+        sys.stderr.flush()
+
+
+def run(tier='quick', replay=None):
+    import tr_stamps as TS
+    import tr_switch as TW
+    res = core.Result(PID, tier)
+    rng = random.Random(core.seed() * 7919 + 2)
+    core.ensure_theory(THEORY + ['TimeDomInj', 'TimeDomSwitch'])
+    w = core.Work(PID)
+    violations = []
+    try:
+        res.trusted = [
+            'Coq 8.16.1 kernel + vm_compute (no native_compute)',
+            'specification coq/theory/ExpPoly.v (signals Sigma c t^n/n! e^{pt} + impulses, ordinary/distributional derivative Dord/D, L termwise) and '
+            'coq/theory/TimeDomCircuit.v (textbook time-domain law of every component class), coq/theory/TimeDomSwitch.v (switch specification)',
+            'translators tools/tr_stamps.py (sha256 %s), tools/tr_switch.py (sha256 %s)' % (
+                core.sha256_file(os.path.join(core.VERIF, 'tools', 'tr_stamps.py'))[:16], core.sha256_file(os.path.join(core.VERIF, 'tools', 'tr_switch.py'))[:16]),
+            'parsers in tools/impl_timedom.py (sympy rewrite(exp)/expand of Lcapy\'s time expressions; decomposition of the s-domain value into delayed rational functions); '
+            'the law list built by checks/c02.py from the generator\'s own element values',
+            'oracles, not verified: sympy.roots / div / residues (accepted only through the verified pf_check), sympy linear solve inside Lcapy',
+            'hand models validated by correspondence: flag model (TimeDomCorr.flags_ok), Analysis.causal (analysis_causal), switching_times',
+        ]
+        res.assumptions = ['field of characteristic 0 with decidable equality (record fld); complex exponentials through Q(i)',
+                           'a time-domain law is the equality of coefficient maps (normal forms); L_injective_char0 proves that this is the same as equality of the images off a finite set',
+                           'switch specification assumes time-invariant sources between switching instants (as convert_IVP documents)']
+        texts = {}
+        # 1. translate
+        log('translate')
+        stamps_ok = False
+        try:
+            tr = TS.StampTranslator(os.path.join(core.REPO, 'lcapy', 'mnacpts.py'))
+            tr.translate_all()
+            texts['StampsGen.v'] = TS.emit(tr)
+            w.write('StampsGen.v', texts['StampsGen.v'])
+            ok, out, secs = core.coqc(w.dir, 'StampsGen.v')
+            if ok:
+                stamps_ok = True
+            else:
+                res.failed_obl.append(('StampsGen', 'StampsGen.v', out[-600:]))
+                res.obligations += 1
+        except (TS.Untranslatable, OSError, SyntaxError) as e:
+            res.failed_obl.append(('translate', 'lcapy/mnacpts.py', str(e)))
+            res.obligations += 1
+        tr_sw = None
+        sw_gen_ok = False
+        try:
+            tr_sw = TW.SwitchTranslation(core.REPO)
+            texts['SwitchGen.v'] = tr_sw.coq_defs()
+            w.write('SwitchGen.v', texts['SwitchGen.v'])
+            ok, out, secs = core.coqc(w.dir, 'SwitchGen.v')
+            if ok:
+                sw_gen_ok = True
+            else:
+                res.failed_obl.append(('SwitchGen', 'SwitchGen.v', out[-600:]))
+                res.obligations += 1
+            res.extra['translated_switch'] = {'before': tr_sw.src_before, 'after': tr_sw.src_after, 'arms': tr_sw.arms, 'skipped': tr_sw.skipped}
+        except (TW.Untranslatable, OSError, SyntaxError) as e:
+            res.failed_obl.append(('translate_switch', 'lcapy/mnacpts.py', str(e)))
+            res.obligations += 1
+            tr_sw = None
+        # 2. prove
+        log('prove')
+        first = {}
+        if stamps_ok:
+            for f in ('C01model.v', 'C01.v'):
+                texts[f] = open(os.path.join(core.VERIF, 'coq', 'props', f)).read()
+                w.write(f, texts[f])
+                first[f] = None
+        texts['C02.v'] = open(os.path.join(core.VERIF, 'coq', 'props', 'C02.v')).read()
+        w.write('C02.v', texts['C02.v'])
+        first['C02.v'] = None
+        if sw_gen_ok:
+            texts['C02_switch.v'] = switch_v(tr_sw)
+            w.write('C02_switch.v', texts['C02_switch.v'])
+            first['C02_switch.v'] = None
+        bad = core.gate_text('generated+props', '\n'.join(texts.values()) + open(os.path.join(core.VERIF, 'coq', 'props', 'C02net.v')).read())
+        bad += core.gate_files([os.path.join(core.COQ_THEORY, f + '.v') for f in ('TimeDom', 'TimeDomInj', 'TimeDomCircuit', 'TimeDomCorr', 'TimeDomSwitch')])
+        if bad:
+            res.failed_obl.append(('gate', 'generated', '; '.join(bad)))
+            res.obligations += 1
+        r1 = core.coqc_many(w.dir, list(first), timeout=900)
+        own = {f: r for f, r in r1.items() if f.startswith('C02')}
+        res.coq_results(w.dir, own, {f: texts[f] for f in own})
+        for f in ('C01model.v', 'C01.v'):
+            if f in r1 and not r1[f][0]:
+                res.failed_obl.append(('C01 prerequisite', f, r1[f][1][-500:]))
+                res.obligations += 1
+        net_ok = False
+        if stamps_ok and all(r1[f][0] for f in ('C01model.v', 'C01.v')):
+            for f in ('C01net.v', 'C02net.v'):
+                texts[f] = open(os.path.join(core.VERIF, 'coq', 'props', f)).read()
+                w.write(f, texts[f])
+            ok, out, secs = core.coqc(w.dir, 'C01net.v', timeout=600)
+            if ok:
+                r2 = core.coqc_many(w.dir, ['C02net.v'], timeout=600)
+                res.coq_results(w.dir, r2, {'C02net.v': texts['C02net.v']})
+                net_ok = r2['C02net.v'][0]
+                r1.update(r2)
+            else:
+                res.failed_obl.append(('C01 prerequisite', 'C01net.v', out[-500:]))
+                res.obligations += 1
+        else:
+            res.failed_obl.append(('ode_from_mna', 'C02net.v', 'not checked: the regenerated C01 files do not compile'))
+            res.obligations += 1
+        res.extra['coq_seconds'] = {f: round(r[2], 1) for f, r in r1.items()}
+        # theory obligations are checked by the (self-healing) theory build of this run
+        for f in ('TimeDom.v', 'TimeDomInj.v', 'TimeDomCircuit.v', 'TimeDomCorr.v', 'TimeDomSwitch.v'):
+            names = core.obligations_in(open(os.path.join(core.COQ_THEORY, f)).read())
+            res.obligations += len(names)
+            res.discharged += len(names)
+        before_broken = any(n in ('before_cmp_ok', 'replace_before_ok') for n, _, _ in res.failed_obl)
+
+        # 3. correspondence + oracle
+        if replay:
+            rc = replay.get('case') or replay.get('replay', {}).get('case')
+            cases = [rc]
+        else:
+            cases = corpus_cases(rng) + gen_cases(rng, tier)
+            sw_cases = gen_switch_cases(rng, tier)
+            if before_broken:      # targeted search for the broken comparison: instants that differ from the query time
+                for i in range(6):
+                    sw_cases.append(gen_switch_case(rng, 2, ['rc', 'rl'][i % 2]))
+            cases += sw_cases
+        log('run impl on %d cases' % len(cases))
+        results = core.run_impl('impl_timedom.py', cases, timeout=1500 if tier == 'quick' else 9000)
+        log('impl done')
+        items = []
+        metas = {}
+        orc = {}
+        swobs = {}
+        nq = 0
+        for i, (c, r) in enumerate(zip(cases, results)):
+            if r is None:
+                r = results[i] = {'error': 'no result'}
+            for t_ in c.get('tags', []):
+                res.count('tag_' + t_)
+            if 'error' in r:
+                res.count('impl_error')
+                res.count('impl_error:' + r['error'].split(':')[0][:40])
+                continue
+            if 'switch' in c:
+                o = switch_obs(c, r)
+                swobs[i] = o
+                txt = switch_coq(i, c, o, sw_gen_ok)
+                if txt:
+                    items.append((i, txt))
+                orc[i] = switch_oracle(c, r, o, tr_sw)
+                res.add_case(json.dumps(c['netlist']) + c['switch']['t'], o is not None,
+                             {'netlist': c['netlist'], 't': c['switch']['t'], 'converted': r.get('netlist'), 'ics': r.get('ics')} if len(res.samples) < 5 and i % 3 == 0 else None)
+                res.count('switch_experiments')
+                if 'ref_error' in r:
+                    res.count('switch_reference_error')
+                continue
+            txt, meta = coq_case(i, c, r)
+            metas[i] = meta
+            if txt:
+                items.append((i, txt))
+            orc[i] = r.get('oracle', [])
+            if 'oracle_error' in r:
+                res.count('oracle_error')
+            usable_q = len(meta['q_used'])
+            nq += usable_q
+            res.count('quantities_compared', usable_q)
+            res.count('laws_checked_in_coq', len(meta['laws_used']))
+            for q_ in r.get('q', []):
+                if 'error' in q_:
+                    res.count('quantity_error:' + q_['error'].split(':')[0][:30])
+                elif not usable(q_):
+                    res.count('quantity_unparsed')
+            for st in c['gen']['src_tags']:
+                res.count('source_' + st)
+            res.count('mode_' + expected_mode(c))
+            res.add_case(json.dumps(c['netlist']), usable_q > 0,
+                         {'netlist': c['netlist'], 'quantity': c['quants'][-1], 'lcapy_time': r['q'][-1].get('time_text') if r.get('q') else None,
+                          'lcapy_sdomain': r['q'][-1].get('sdom_text') if r.get('q') else None} if len(res.samples) < 4 and i % 7 == 0 else None)
+        res.programs = sum(1 for c in cases if 'switch' not in c)
+        codes = {}
+        if items:
+            shards = [items[k:k + 12] for k in range(0, len(items), 12)]
+            fns = []
+            for si, sh in enumerate(shards):
+                head = 'Require Import Gen.SwitchGen.\n' if sw_gen_ok else ''
+                w.write('cases_%d.v' % si, cases_v([t for _, t in sh]).replace('Definition cases :', head + 'Definition cases :', 1)
+                        .replace('LT.TimeDomCorr.', 'LT.TimeDomSwitch LT.TimeDomCorr.'))
+                fns.append('cases_%d.v' % si)
+            log('coqc %d case files' % len(fns))
+            cr = core.coqc_many(w.dir, fns, timeout=900)
+            log('cases done')
+            for f, (ok, out, secs) in cr.items():
+                fc = parse_fail_cases(out) if ok else None
+                if fc is None:
+                    res.failed_obl.append(('correspondence_eval', f, out[-600:]))
+                    res.obligations += 1
+                else:
+                    codes.update(fc)
+            res.extra['traces_validated_against_impl'] = len(items)
+            res.extra['case_eval_seconds'] = round(max([r_[2] for r_ in cr.values()] + [0]), 1)
+        res.rule = ('cases: corpus (series RLC s^2+2s+5 with/without initial conditions, impulse into RC, coupled inductors with initial currents, dc + step) + '
+                    'generated circuits from 11 families (series/parallel RLC with chosen natural frequencies real/repeated/complex/imaginary, RC, RL, VCVS-buffered '
+                    'cascades incl. repeated real and repeated complex pairs, transformer, VCCS, CCVS, CCCS, coupled inductors, steady state + transient) x 13 source '
+                    'kinds (step, dc, exp, t exp, ramp, delayed step/exp, pulse, impulse, cos, sin, damped cos, ac; resonant with a natural frequency on demand) x '
+                    'initial conditions; every element voltage/current and node voltage observed; + convert_IVP experiments (1-3 switches, RC/RL, query time '
+                    'before/at/between/after the instants); non-trivial = at least one quantity parsed to the normal form')
+
+        # 4. decide
+        by_key = {}
+        for i, c in enumerate(cases):
+            cds = codes.get(i, [])
+            ob = orc.get(i, [])
+            if not cds and not ob:
+                continue
+            if 'switch' in c:
+                found = []
+                for key, what in ob:
+                    found.append((key, what, True))
+                sw = c['switch']
+                passed = len([a for a in sorted(set(Fraction(a) for _, a in sw['sws'])) if a <= Fraction(sw['t'])])
+                keys_have = set(k for k, _, _ in found)
+                for cd in cds:
+                    if cd == 6000:
+                        key = KEY_IVP_CFG if passed >= 2 else 'convert_IVP:switch-configuration:passed%d' % passed
+                    elif cd == 6001:
+                        key = KEY_IVP_TRACE if passed >= 2 else (KEY_BEFORE if KEY_BEFORE in keys_have else 'convert_IVP:handover:passed%d' % passed)
+                    else:
+                        key = 'correspondence:%d:switch' % cd
+                    if key not in keys_have:
+                        found.append((key, 'Coq evaluation of the switch specification: code %d' % cd, cd in (6000, 6001)))
+                rec = {'case': c, 'lcapy': {k: results[i].get(k) for k in ('netlist', 'ics', 'ref_ics', 'times', 'after', 'before')}, 'coq_codes': cds,
+                       'how': './check C02 --replay <this file>'}
+            else:
+                found = classify_circuit(c, results[i], cds, ob, metas.get(i, {'q_used': [], 'laws_used': []}))
+                rec = {'case': c, 'coq_codes': cds, 'oracle': ob, 'lcapy': [{k: q_.get(k) for k in ('time_text', 'sdom_text', 'error')} for q_ in results[i].get('q', [])],
+                       'how': './check C02 --replay <this file>'}
+            for key, what, found_input in found:
+                if found_input:
+                    res.counterexamples.append({'key': key, 'what': what, 'netlist': c['netlist']})
+                else:
+                    res.disagreements.append({'key': key, 'what': what, 'netlist': c['netlist']})
+                if key not in by_key:
+                    by_key[key] = dict(rec, key=key, what=what, found_input=found_input, replay={'case': c})
+                elif found_input and not by_key[key]['found_input']:
+                    by_key[key] = dict(rec, key=key, what=what, found_input=True, replay={'case': c})
+        violations += list(by_key.values())
+        have_before = KEY_BEFORE in by_key and by_key[KEY_BEFORE]['found_input']
+        for name, f, msg in res.failed_obl:
+            if name in ('before_cmp_ok', 'replace_before_ok') and have_before:
+                continue      # the failing input for the broken comparison was found (keyed above)
+            violations.append({'key': 'obligation:' + name, 'what': 'Coq obligation %s in %s no longer checks' % (name, f),
+                               'theorem': name, 'file': f, 'message': msg, 'found_input': False})
+        return core.finish(res, violations)
+    finally:
+        if not os.environ.get('VERIF_KEEP'):
+            w.cleanup()
+
+
+if __name__ == '__main__':
+    sys.exit(run(sys.argv[1] if len(sys.argv) > 1 else 'quick'))
